@@ -1,5 +1,6 @@
 import VncModel.Update.USpecProofs
 import VncModel.Update.CopyOrder
+import VncModel.Update.Defer
 import VncModel.Update.Refine
 import VncModel.Leaf.EquivUpdate
 /-!
@@ -285,3 +286,33 @@ theorem code_cursorBox_eq_model (s : VncModel.Update.Screen) (cx cy : Int) :
 theorem code_createRect_guard (x1 y1 x2 y2 : Int) :
     VncModel.Gen.Leaf.sraRgnCreateRect_guard x1 y1 x2 y2 = (if x1 ≥ x2 ∨ y1 ≥ y2 then none else some (x1, y1, x2, y2)) := rfl
 end VncModel.Props.C02.T1
+
+/-! ## Update deferral (`deferUpdateTime > 0`) -/
+namespace VncModel.Props.C02.Defer
+open VncModel.Update
+
+/-- **Deferral only delays**: for every clock reading and every timer state a call of
+`rfbUpdateClient` with `deferUpdateTime > 0` either leaves the client's regions untouched and sends
+nothing, or does exactly what the undeferred call does — so every safety statement above (the
+refinement to the set-level spec, hence the convergence invariant) carries over unchanged. -/
+theorem deferral_only_delays (s : Screen) (defer : Int) (now : Int × Int) (t : Timed) :
+    ((updateClientTimed s defer now t).1.c = t.c ∧ (updateClientTimed s defer now t).2 = none) ∨
+    ((updateClientTimed s defer now t).1.c = (updateClient s t.c).1 ∧
+     (updateClientTimed s defer now t).2 = (updateClient s t.c).2) :=
+  updateClientTimed_cases s defer now t
+
+/-- with `deferUpdateTime = 0` nothing is deferred -/
+theorem no_deferral_when_zero (s : Screen) (now : Int × Int) (t : Timed) :
+    (updateClientTimed s 0 now t).1.c = (updateClient s t.c).1 ∧
+    (updateClientTimed s 0 now t).2 = (updateClient s t.c).2 :=
+  updateClientTimed_zero s now t
+
+/-- **Liveness under a fair clock**: once an update is pending and the deferral timer runs, any
+call made more than `deferUpdateTime` ms after the timer started sends the update. -/
+theorem deferral_fires (s : Screen) (defer : Int) (now : Int × Int) (t : Timed)
+    (hp : updatePending s t.c = true) (hd : defer ≠ 0) (hs : t.startUsec ≠ 0)
+    (hlate : (now.1 - t.startSec) * 1000 + Int.tdiv (now.2 - t.startUsec) 1000 > defer) :
+    (updateClientTimed s defer now t).2 = (sendUpdate s t.c).2 :=
+  updateClientTimed_fires s defer now t hp hd hs hlate
+
+end VncModel.Props.C02.Defer
